@@ -197,6 +197,10 @@ def _worker_batch(prop_name, seed, indices, tier, options):
     logs = {}
     findings = load_known_findings()
     known_examples = set()
+    if any(getattr(prop, 'replica_rate', {}).values()):
+        # replica worker interpreters live in this long-lived worker; the per-run children inherit their pipes
+        from depsim import replicas
+        replicas.ensure_started()
     t0 = time.time()
     for index in indices:
         t_run = time.time()
